@@ -148,6 +148,7 @@ Inductive ev :=
 | EWrite (i : N)            (* the user writes into stream i *)
 | EStreamClose (i : N)      (* the user calls Close on stream i (any number of times, overlapping or not) *)
 | EStreamCloseResp (i : N)  (* the exchange of stream i's close request ends: response, or its wire connection closed *)
+| EStreamCloseRefused (i : N)  (* the broker answers stream i's close request with a failure result code *)
 | ECloseCall                (* Conn.Close: Swap(Closed) *)
 | ECloseDisc                (* Conn.Close: SendDisconnect hands Disconnect to the transport *)
 | ECloseWire.               (* Conn.Close: wireConn.Close() *)
@@ -242,6 +243,13 @@ Definition watch_step (c : conn) (i : N) : conn * list out :=
              if s_buf s && (s_held s =? c_gen c) && writable c then [OChunk (c_gen c) i] else [])
           else if cs_eqb (c_status c) Reconnecting || (fix_f9 (c_cfg c) && negb (s_held s =? c_gen c)) then
             (set_streams c (upd_s i (fun s => set_phase s SWaitConn) (c_streams c)), [])
+          else (c, [])
+      | SDraining =>
+          (* a user Close is waiting for its close response when the connection is closed: the close watcher
+             cancels the stream context, the supervisor returns and the stream's dispatcher stops - the closed
+             event that the pending Close registers when its exchange ends is then never delivered *)
+          if is_closed c
+          then (set_streams c (upd_s i (fun s => set_phase s (SClosed false true)) (c_streams c)), [])
           else (c, [])
       | _ => (c, [])
       end
@@ -493,6 +501,10 @@ Definition step (c : conn) (e : ev) : conn * list out :=
   | EWrite i => write_step c i
   | EStreamClose i => stream_close_step c i
   | EStreamCloseResp i => stream_close_resp_step c i
+  | EStreamCloseRefused i =>
+      (* Close returns the FailedMessageError, but the stream is final whatever the answer: the context is
+         cancelled (defer cancel) and the closed event registered exactly as for a success *)
+      stream_close_resp_step c i
   | ECloseCall => close_call_step c
   | ECloseDisc => close_disc_step c
   | ECloseWire => close_wire_step c
